@@ -261,10 +261,7 @@ def livepatch(old, new, modname=None,
         return update(old, new, modname=modname,
                       cache=cache, visit_stack=visit_stack)
     if heed_hook:
-        hook = (getattr(new, "__livepatch__", None) or
-                getattr(new, "__reload_update__", None))
-        # XXX if unbound method or a descriptor, then we should ignore it.
-        # XXX test for that.
+        hook = _get_livepatch_hook(new)
     else:
         hook = None
     if hook is None:
@@ -314,6 +311,27 @@ def livepatch(old, new, modname=None,
         result = hook(*args, **kwargs)
     cache[cachekey] = result
     return result
+
+
+def _get_livepatch_hook(new):
+    """
+    Get the ``__livepatch__`` (or ``__reload_update__``) hook to call for
+    livepatching to ``new``, if any.
+    """
+    for name in ("__livepatch__", "__reload_update__"):
+        hook = getattr(new, name, None)
+        if not hook:
+            continue
+        if (isinstance(new, type) and
+            isinstance(hook, types.FunctionType) and
+            any(klass.__dict__.get(name) is hook
+                for klass in type.mro(new))):
+            # A plain function in the class body is an instance method: a
+            # hook for livepatching *instances* of the class (it takes
+            # ``self``).  It's not a hook for livepatching the class itself.
+            continue
+        return hook
+    return None
 
 
 def _livepatch__module(old_mod, new_mod, modname, cache, visit_stack):
